@@ -84,3 +84,28 @@ def replay_dbg(ctx, payload):
     why = compare(ri[0], rm[0])
     log("agree" if why is None else "DISAGREE: " + why)
     return 0 if why is None else 1
+
+
+def make_cases(rnd, specs, fuel=3000):
+    """specs: list of (tag, feat, src, inp, cmds) -> (cases, tags)"""
+    cases, tags = [], []
+    for tag, feat, src, inp, cmds in specs:
+        text = dbggen.script_text(rnd, cmds)
+        cases.append(dbggen.dbg_case(feat, fuel, src, inp, cmds, text))
+        tags.append(tag)
+    return cases, tags
+
+
+def coverage(r, rule, profiles, **more):
+    cov = {
+        "evaluations": r["evaluations"], "distinct_nontrivial": len(r["sigs"]), "rule": rule,
+        "stop_kind_histogram": r["hist"], "samples": r["samples"], "mismatches": r["mismatches"],
+        "skipped_for_budget": r["skipped_budget"], "profiles": list(profiles),
+    }
+    cov.update(more)
+    return cov
+
+
+def impl_fields(lines):
+    f, e = dbggen.decode_lines(lines)
+    return (dbggen.split_first(f) if f != [9] else None), e
